@@ -48,7 +48,7 @@ impl<'b, T: Write + 'b> Session<'b, T> {
                 crate::verif::ev("Disabled");
                 // When the input is from stdin, echo back the input.
                 return match input {
-                    Input::Text(ref buf) => echo_back_stdin(buf),
+                    Input::Text(ref buf) => self.echo_back(buf),
                     _ => Ok(FormatReport::new()),
                 };
             }
@@ -107,13 +107,6 @@ fn should_skip_module<T: FormatHandler>(
     }
 
     false
-}
-
-fn echo_back_stdin(input: &str) -> Result<FormatReport, ErrorKind> {
-    if let Err(e) = io::stdout().write_all(input.as_bytes()) {
-        return Err(From::from(e));
-    }
-    Ok(FormatReport::new())
 }
 
 // Format an entire crate (or subset of the module tree).
@@ -177,7 +170,8 @@ fn format_project<T: FormatHandler>(
         if input_is_stdin && contains_skip(module.attrs()) {
             #[cfg(rustfmt_verif)]
             crate::verif::ev_path("Filtered", &path, "stdin-skip");
-            return echo_back_stdin(context.psess.snippet_provider(module.span).entire_snippet());
+            let snippet_provider = context.psess.snippet_provider(module.span);
+            return context.handler.echo_back(snippet_provider.entire_snippet());
         }
         should_emit_verbose(input_is_stdin, config, || println!("Formatting {}", path));
         context.format_file(path, &module, is_macro_def)?;
@@ -299,6 +293,9 @@ trait FormatHandler {
         result: String,
         report: &mut FormatReport,
     ) -> Result<(), ErrorKind>;
+
+    /// Gives the input back as it is (input that is not to be formatted at all).
+    fn echo_back(&mut self, input: &str) -> Result<FormatReport, ErrorKind>;
 }
 
 impl<'b, T: Write + 'b> FormatHandler for Session<'b, T> {
@@ -331,6 +328,16 @@ impl<'b, T: Write + 'b> FormatHandler for Session<'b, T> {
 
         self.source_file.push((path, result));
         Ok(())
+    }
+
+    // To where this session writes: the process's stdout for input on stdin, but the buffer of
+    // a nested session that formats a snippet (a macro body, a code block in a doc comment).
+    fn echo_back(&mut self, input: &str) -> Result<FormatReport, ErrorKind> {
+        match self.out {
+            Some(ref mut out) => out.write_all(input.as_bytes())?,
+            None => io::stdout().write_all(input.as_bytes())?,
+        }
+        Ok(FormatReport::new())
     }
 }
 
